@@ -2,15 +2,22 @@
    `draw` is the model of the CURRENT pkg/datamodeldiagram/datamodelview.go (DmModel.draw_with applied to the
    shape table regenerated from the source); spec_block / rel_line / tuple_line / rel_parts / tuple_parts are
    state-independent descriptions of one type's lines and of the references the code resolves (DmProps.v). *)
-From Coq Require Import List PArith Bool.
+From Coq Require Import List PArith ZArith Bool Permutation.
 Import ListNotations.
 Require Import Verif.DataModel.DmShapeTypes Verif.DataModel.DmModel Verif.DataModel.DmCurrent
-               Verif.DataModel.DmProps Verif.Gen.DmShape.
+               Verif.DataModel.DmProps Verif.DataModel.DmWrapCurrent Verif.DataModel.DmWrap Verif.DataModel.DmWrapProps Verif.DataModel.DmResolve
+               Verif.Gen.DmShape Verif.Gen.DmWrap.
 
 (* obligation against the source: alias allocation, reference counting and dispatch are as the theorems assume *)
 Theorem C15_shape_current : shape_of_source = fixed_shape.
 Proof. exact shape_current. Qed.
 Print Assumptions C15_shape_current.
+
+(* second obligation against the source (round 3): Execute of `sysl datamodel`, the four functions of datamodel.go,
+   DrawEnum and getNames have, token for token, the statements the model transliterates *)
+Theorem C15_wrap_current : wrap_text_of_source = fixed_wrap_text.
+Proof. exact wrap_current. Qed.
+Print Assumptions C15_wrap_current.
 
 (* classes and fields, full: the output is, for every covered type in order, exactly its class header, one line per
    field and the closing brace, followed by relationship lines only - no other class, no other field line *)
@@ -41,11 +48,11 @@ Print Assumptions C15_dm_classes_exact_refuted.
    C15_dm_blocks_exact) *)
 Theorem C15_dm_fields_exact_refuted : exists es o f,
   draw None es = Ok o /\
-  In {| e_app := 2%positive; e_name := [4%positive]; e_def := DRel [(f, FSet (EPrim 4))] |} es /\ In (IField f (LPrim 0)) o.
+  In {| e_app := [2%positive]; e_name := [4%positive]; e_def := DRel [(f, FSet (EPrim 4))] |} es /\ In (IField f (LPrim 0)) o.
 Proof. exact dm_fields_exact_refuted. Qed.
 Print Assumptions C15_dm_fields_exact_refuted.
 
-Theorem C15_tuple_ref_label : forall r, lab (ERef r) = LN (join (r_path r)) \/ exists a, lab (ERef r) = LN (a :: join (r_path r)).
+Theorem C15_tuple_ref_label : forall r, lab (ERef r) = LN (join (r_path r)) \/ exists a, lab (ERef r) = LN (a ++ join (r_path r)).
 Proof. exact ref_label_names_path. Qed.
 Print Assumptions C15_tuple_ref_label.
 
@@ -65,15 +72,15 @@ Theorem C15_resolution_plain : forall tm ign r p0, r_path r = [p0] ->
   mem_str (join [p0]) ign = false -> has_type tm p0 = false ->
   tuple_parts tm ign (FRef r) =
     let app := match r_app r with Some a => a | None => r_ctx r end in
-    if has_type tm (app :: p0) then Some [[app]; p0] else None.
+    if has_type tm (app ++ p0) then Some [app; p0] else None.
 Proof. exact tuple_parts_plain. Qed.
 Print Assumptions C15_resolution_plain.
 
 (* relationships, refuted in full: nested names; references to primitive aliases *)
 Theorem C15_dm_edges_exact_refuted : exists es o a n,
   draw None es = Ok o /\ In (IClass a (2%positive :: n) HClass) o /\
-  In {| e_app := 2%positive; e_name := [4%positive];
-        e_def := DTuple [(1%positive, FRef {| r_ctx := 2%positive; r_app := None; r_parts := []; r_path := [[4%positive]; [5%positive]] |})] |} es /\
+  In {| e_app := [2%positive]; e_name := [4%positive];
+        e_def := DTuple [(1%positive, FRef {| r_ctx := [2%positive]; r_app := None; r_parts := []; r_path := [[4%positive]; [5%positive]] |})] |} es /\
   n = join [[4%positive]; [5%positive]] /\ forall x y, count_edges o x y = 0.
 Proof. exact dm_edges_exact_refuted. Qed.
 Print Assumptions C15_dm_edges_exact_refuted.
@@ -83,10 +90,121 @@ Theorem C15_dm_edges_prim_alias_refuted : exists es o a b c ar,
 Proof. exact dm_edges_prim_alias_refuted. Qed.
 Print Assumptions C15_dm_edges_prim_alias_refuted.
 
-(* per-application view: exactly the covered types of that application are declared *)
+(* per-application view, no hypothesis: the view of `a` declares exactly the covered types whose App.Type name has `a`
+   as its first '.'-chunk *)
+Theorem C15_view_of_app_chunk : forall a es o, draw (Some a) es = Ok o ->
+  (forall al n h, In (IClass al n h) o ->
+     exists e, In e (type_map es) /\ [hd eps (e_key e)] = a /\ is_drawn e = true /\ n = e_key e) /\
+  (forall e, In e (type_map es) -> [hd eps (e_key e)] = a -> is_drawn e = true -> exists al h, In (IClass al (e_key e) h) o).
+Proof. exact view_of_app_chunk. Qed.
+Print Assumptions C15_view_of_app_chunk.
+
+(* per-application view, application names without '.': exactly the covered types of that application are declared
+   (round 3: application names are strings; before, the model could not express a name with '.') *)
 Theorem C15_view_of_app_exact : forall a es o, draw (Some a) es = Ok o ->
+  plain_app a -> (forall e, In e (type_map es) -> plain_app (e_app e)) ->
   (forall al n h, In (IClass al n h) o ->
      exists e, In e (type_map es) /\ e_app e = a /\ is_drawn e = true /\ n = e_key e) /\
   (forall e, In e (type_map es) -> e_app e = a -> is_drawn e = true -> exists al h, In (IClass al (e_key e) h) o).
 Proof. exact view_of_app_exact. Qed.
 Print Assumptions C15_view_of_app_exact.
+
+(* ... refuted for application names with '.': the view of App.2 is empty, the view of App declares App.2's types *)
+Theorem C15_view_of_dotted_app_refuted :
+  (exists e, In e (type_map ex_dotted_app) /\ e_app e = [2%positive; 3%positive] /\ is_drawn e = true /\
+     draw (Some [2%positive; 3%positive]) ex_dotted_app = Ok []) /\
+  (exists o al h e, draw (Some [2%positive]) ex_dotted_app = Ok o /\ In (IClass al (e_key e) h) o /\
+     In e (type_map ex_dotted_app) /\ e_app e <> [2%positive]).
+Proof. exact view_of_dotted_app_refuted. Qed.
+Print Assumptions C15_view_of_dotted_app_refuted.
+
+(* enum items: with pairwise different values every enumerator is listed exactly once (the lines of an enum block are
+   given by C15_dm_blocks_exact: header, enum_lines, brace) *)
+Theorem C15_enum_items_exact_partial : forall items, NoDup (map snd items) ->
+  Permutation (enum_lines items) (map (fun x => IItem (fst x)) items).
+Proof. exact enum_items_exact_partial. Qed.
+Print Assumptions C15_enum_items_exact_partial.
+
+(* ... refuted in full: of two enumerators with one value one is listed twice, the other not at all *)
+Theorem C15_enum_items_exact_refuted : exists es o a n1 n2,
+  draw None es = Ok o /\ In {| e_app := [2%positive]; e_name := [4%positive]; e_def := DEnum [(n1, 5%Z); (n2, 5%Z)] |} es /\
+  n1 <> n2 /\ o = [IClass a [2%positive; 4%positive] HEnum; IItem n2; IItem n2; IEnd].
+Proof. exact enum_items_exact_refuted. Qed.
+Print Assumptions C15_enum_items_exact_refuted.
+
+(* `sysl datamodel` (datamodel.go): which view is stored under which output name *)
+Theorem C15_direct_whole_model : forall output apps m, gen_models (WDirect false output apps) = Some m ->
+  (forall k v, In (k, v) m -> k = output /\ v = None) /\
+  (apps <> [] -> wlookup output m = Some None) /\ (apps = [] -> m = []).
+Proof. exact direct_whole_model. Qed.
+Print Assumptions C15_direct_whole_model.
+
+Theorem C15_direct_per_app_exact : forall output apps m, gen_models (WDirect true output apps) = Some m ->
+  NoDup (map w_out apps) ->
+  (forall a, In a apps -> wlookup (w_out a) m = Some (Some (w_name a))) /\
+  (forall k, In k (wkeys m) -> exists a, In a apps /\ k = w_out a).
+Proof. exact direct_per_app_exact. Qed.
+Print Assumptions C15_direct_per_app_exact.
+
+Theorem C15_project_endpoint_partial : forall has_ep eps m e, gen_models (WProject true has_ep eps) = Some m ->
+  NoDup (map ep_out eps) -> In e eps -> ep_match e = true ->
+  wlookup (ep_out e) m = option_map (view_of has_ep) (last_target (ep_stmts e) None).
+Proof. exact project_endpoint_partial. Qed.
+Print Assumptions C15_project_endpoint_partial.
+
+(* ... refuted in full: an endpoint naming two applications is drawn as the view of the second only *)
+Theorem C15_project_endpoint_covers_all_refuted : exists eps m a b out,
+  gen_models (WProject true true eps) = Some m /\
+  eps = [ {| ep_out := out; ep_match := true; ep_stmts := [WAction (Some a); WAction (Some b)] |} ] /\ a <> b /\
+  wlookup out m = Some (Some b) /\ forall k, wlookup k m <> Some (Some a).
+Proof. exact project_endpoint_covers_all_refuted. Qed.
+Print Assumptions C15_project_endpoint_covers_all_refuted.
+
+(* reference resolution: fix_scope / resolve are the compiler's scoping rule (pkg/parse fixTypeRefScope, JoinTypeRefScope);
+   DrawTuple resolves a reference as the compiler does on EVERY module exactly when the reference is plain (one path
+   element of one chunk; no application part, or the current application, or a namespaced application) - the
+   remaining references are the four classes DmResolve.differs_nested / _dotted / _ctx / _one_part *)
+Theorem C15_fix_scope_idempotent : forall es curr r, fix_scope es curr (fix_scope es curr r) = fix_scope es curr r.
+Proof. exact fix_scope_idempotent. Qed.
+Print Assumptions C15_fix_scope_idempotent.
+
+Theorem C15_resolution_agrees_iff : forall curr r t, wf_ref curr r -> ref_of t = Some r ->
+  ((forall es, wf_es es -> code_target es t = spec_target es curr r) <-> plain_ref curr r).
+Proof. exact resolution_agrees_iff. Qed.
+Print Assumptions C15_resolution_agrees_iff.
+
+(* two more refutations (round 3): a table of an application whose name contains '.' gets no line for its local foreign
+   key; all lines from one class to one target carry the cardinality label of the first field *)
+Theorem C15_dm_edges_dotted_app_refuted : exists o a,
+  draw None ex_dotted_table = Ok o /\ In (IClass a [2%positive; 3%positive; 4%positive] HClass) o /\
+  In (IField 2%positive (LFK [4%positive; 6%positive])) o /\ forall x y, count_edges o x y = 0.
+Proof. exact dm_edges_dotted_app_refuted. Qed.
+Print Assumptions C15_dm_edges_dotted_app_refuted.
+
+Theorem C15_dm_card_exact_refuted : exists o,
+  draw None ex_card = Ok o /\ count_edges o 0 1 = 2 /\ In (IEdge 0 1 CMany false) o /\ ~ In (IEdge 0 1 COne false) o.
+Proof. exact dm_card_exact_refuted. Qed.
+Print Assumptions C15_dm_card_exact_refuted.
+
+(* the four classes of non-plain references, each with a module on which DrawTuple and the compiler differ *)
+Theorem C15_differs_nested : forall curr r t p0 p1 rest, wf_ref curr r -> ref_of t = Some r -> r_path r = p0 :: p1 :: rest ->
+  exists es, wf_es es /\ code_target es t <> spec_target es curr r.
+Proof. exact differs_nested. Qed.
+Print Assumptions C15_differs_nested.
+Theorem C15_differs_dotted : forall curr r t x y l, wf_ref curr r -> ref_of t = Some r -> r_path r = [x :: y :: l] ->
+  exists es, wf_es es /\ code_target es t <> spec_target es curr r.
+Proof. exact differs_dotted. Qed.
+Print Assumptions C15_differs_dotted.
+Theorem C15_differs_ctx : forall curr r t c, wf_ref curr r -> ref_of t = Some r -> r_path r = [[c]] -> r_parts r = [] -> r_ctx r <> curr ->
+  exists es, wf_es es /\ code_target es t <> spec_target es curr r.
+Proof. exact differs_ctx. Qed.
+Print Assumptions C15_differs_ctx.
+Theorem C15_differs_one_part : forall curr r t c a, wf_ref curr r -> ref_of t = Some r -> r_path r = [[c]] -> r_parts r = [a] -> a <> curr ->
+  exists es, wf_es es /\ code_target es t <> spec_target es curr r.
+Proof. exact differs_one_part. Qed.
+Print Assumptions C15_differs_one_part.
+(* ... and on every module a plain reference is resolved as the compiler resolves it *)
+Theorem C15_resolution_agrees_plain : forall es curr r t, wf_ref curr r -> plain_ref curr r -> ref_of t = Some r -> wf_es es ->
+  code_target es t = spec_target es curr r.
+Proof. exact resolution_agrees_plain. Qed.
+Print Assumptions C15_resolution_agrees_plain.
